@@ -223,11 +223,25 @@ def rule_b(ctx):
                     continue
                 post = dict(pre0)
                 post.update(m.post_state(p))
+                # what the close sequence does to a stream that is still registered: the synthetic ERROR (for a
+                # requester) and dispose() (for whoever holds a producer)
                 for en2 in entries:
-                    if en2.kind != 'frame' or en2.frame_cls.name != 'ErrorFrame':
+                    is_err = en2.kind == 'frame' and en2.frame_cls.name == 'ErrorFrame'
+                    is_dispose = en2.kind == 'method' and en2.func.name == 'dispose'
+                    if not (is_err or is_dispose):
                         continue
-                    later = [s for p2 in m.run(en2, post) for s in m.signals(p2)]
-                    c2 = '%s then ErrorFrame' % en.name
+                    later = [s for p2 in m.run(en2, post) for s in m.signals(p2) if s[0] != 'subscribe']
+                    c2 = '%s then %s' % (en.name, 'ErrorFrame' if is_err else 'dispose()')
+                    if is_dispose:
+                        if later:
+                            rep.bad('C07.b', c2, en2.func,
+                                    'after the terminal signal at line %s the stream stays registered (state %s) and '
+                                    'dispose() - called for it by the close sequence - signals the subscriber again at '
+                                    'line %s' % ([e.line for k, e in sigs if k in TERMINAL][0], _st(post),
+                                                 later[0][1].line))
+                        else:
+                            rep.ok('C07.b', c2, en2.func, 'dispose() produces no signal in state %s' % _st(post))
+                        continue
                     if later:
                         rep.bad('C07.b', c2, en2.func,
                                 'after the terminal signal at line %s the stream stays registered (state %s) and a '
